@@ -18,12 +18,12 @@ func init() {
 var t3Table = [][2]string{
 	{"Encoder.EncodeString", "Decoder.decodeString"},
 	{"Encoder.WriteString", "Decoder.decodeString"},
-	{"Encoder.writeTime", "Decoder.decodeTime"},
-	{"Encoder.writeUUID", "Decoder.decodeUUID"},
-	{"Encoder.writeSlice", "sliceDecoder.Decode+Decoder.decodeBytes"},
-	{"Encoder.writeArray", "arrayDecoder.Decode+byteArrayDecoder.Decode"},
-	{"Encoder.writeMap", "mapDecoder.Decode"},
-	{"Encoder.writeList", "listDecoder.Decode"},
+	{"Encoder.writeTime|timeEncoder.Write", "Decoder.decodeTime"},
+	{"Encoder.writeUUID|uuidEncoder.Write", "Decoder.decodeUUID"},
+	{"Encoder.writeSlice|sliceEncoder.Write", "sliceDecoder.Decode+Decoder.decodeBytes"},
+	{"Encoder.writeArray|arrayEncoder.Write", "arrayDecoder.Decode+byteArrayDecoder.Decode"},
+	{"Encoder.writeMap|mapEncoder.Write", "mapDecoder.Decode"},
+	{"Encoder.writeList|listEncoder.Write", "listDecoder.Decode"},
 	{"structEncoder.Write", "structDecoder.Decode"},
 	{"anonymousStructEncoder.Write", "structDecoder.Decode"},
 	// nil is written by the callers of the container writers for every nullable destination
@@ -191,7 +191,15 @@ func ruleT3(r *Run) {
 	}
 	// ---- frozen container table
 	for _, e := range t3Table {
-		check(e[0], p.LookupFunc("io", e[0]), e[1])
+		// alternates: an unexported writer that was inlined into the Write method of its encoder
+		name, f := e[0], (*types.Func)(nil)
+		for _, alt := range strings.Split(e[0], "|") {
+			if g := p.LookupFunc("io", alt); g != nil {
+				name, f = strings.Split(e[0], "|")[0], g
+				break
+			}
+		}
+		check(name, f, e[1])
 	}
 	// ---- decodeInterface accepts everything any writer can start with
 	if f := p.LookupFunc("io", "Decoder.decodeInterface"); f != nil && sets[f] != nil {
